@@ -1,7 +1,7 @@
 (* Proofs about Tensor.Layout: the checked length computations are exact, the mode-dependent
    arithmetic never overflows below 2^64, and an accepted constructor call establishes Inv. *)
 From RV Require Import Prelude.
-From Tensor Require Import Overlap Overlap_proofs Overlap_complete Layout.
+From Tensor Require Import Overlap Overlap_proofs Overlap_complete Overlap_oracle Layout.
 From Coq Require Import Permutation.
 Open Scope N_scope.
 
@@ -594,3 +594,179 @@ Proof.
       - cbn [nprod]. rewrite (N.mul_comm (nprod r) d). reflexivity. }
     specialize (H _ Hnz []). rewrite app_nil_r in H. etransitivity; [exact H|reflexivity].
 Qed.
+
+(* ------------------------------------------------------------ checked indexing *)
+Lemma nd_valid_iff : forall idx shape, nd_valid idx shape = true <-> Forall2 N.lt idx shape.
+Proof.
+  induction idx as [|i ir IH]; intros [|s sr]; cbn [nd_valid]; split; intros H;
+    try discriminate; try constructor; try (inversion H; fail).
+  - apply andb_true_iff in H as [H _]. apply N.ltb_lt. exact H.
+  - apply andb_true_iff in H as [_ H]. apply IH. exact H.
+  - inversion H; subst. apply andb_true_iff. split; [apply N.ltb_lt; assumption|apply IH; assumption].
+Qed.
+
+Lemma offset_acc_m_exact m : forall idx strides acc, acc + dot idx strides < two64 ->
+  offset_acc_m m idx strides acc = Val (acc + dot idx strides).
+Proof.
+  induction idx as [|i ir IH]; intros [|s sr] acc Hb; cbn [offset_acc_m dot] in *;
+    try (f_equal; lia).
+  rewrite mul_m_exact by lia. cbn [bind]. rewrite add_m_exact by lia. cbn [bind].
+  rewrite IH by lia. f_equal. lia.
+Qed.
+
+Lemma dyn_off_loop_exact m : forall idx shape strides v acc,
+  Forall2 N.lt idx shape -> (length shape <= length strides)%nat -> acc + dot idx strides < two64 ->
+  dyn_off_loop m idx shape strides v acc = Val (v, acc + dot idx strides).
+Proof.
+  induction idx as [|i ir IH]; intros shape strides v acc Hv Hl Hb.
+  - inversion Hv; subst. cbn [dyn_off_loop dot]. rewrite N.add_0_r. reflexivity.
+  - inversion Hv as [|? s ? sr Hi Hr]; subst. destruct strides as [|t tr]; [cbn in Hl; lia|].
+    cbn [dyn_off_loop dot] in *. rewrite mul_m_exact by lia. cbn [bind].
+    rewrite add_m_exact by lia. cbn [bind].
+    rewrite IH; [|exact Hr|cbn in Hl; lia|lia].
+    apply N.ltb_lt in Hi. rewrite Hi, andb_true_r. f_equal. f_equal. lia.
+Qed.
+
+(* the validity flag computed by the loop: false stays false, and over full-length lists it is
+   exactly per-dimension validity *)
+Lemma dyn_off_loop_false m : forall idx shape strides acc r,
+  dyn_off_loop m idx shape strides false acc = Val r -> fst r = false.
+Proof.
+  induction idx as [|i ir IH]; intros [|s sr] [|t tr] acc r H; cbn [dyn_off_loop] in H;
+    try (inversion H; reflexivity).
+  destruct (mul_m m i t) as [p|]; [|discriminate]. cbn [bind] in H.
+  destruct (add_m m acc p) as [a|]; [|discriminate]. cbn [bind andb] in H. eauto.
+Qed.
+
+Lemma dyn_off_loop_flag m : forall idx shape strides v acc r,
+  length idx = length shape -> (length shape <= length strides)%nat ->
+  dyn_off_loop m idx shape strides v acc = Val r -> fst r = v && nd_valid idx shape.
+Proof.
+  induction idx as [|i ir IH]; intros [|s sr] strides v acc r Hl Hs H; try discriminate.
+  - destruct strides; cbn [dyn_off_loop] in H; inversion H; cbn [fst nd_valid]; rewrite andb_true_r; reflexivity.
+  - destruct strides as [|t tr]; [cbn in Hs; lia|]. cbn [dyn_off_loop] in H.
+    destruct (mul_m m i t) as [p|]; [|discriminate]. cbn [bind] in H.
+    destruct (add_m m acc p) as [a|]; [|discriminate]. cbn [bind] in H.
+    apply IH in H; [|cbn in Hl; lia|cbn in Hs; lia]. rewrite H. cbn [nd_valid].
+    rewrite andb_assoc. reflexivity.
+Qed.
+
+Lemma dyn_off_loop_release : forall idx shape strides v acc,
+  exists r, dyn_off_loop Release idx shape strides v acc = Val r.
+Proof.
+  induction idx as [|i ir IH]; intros [|s sr] [|t tr] v acc; cbn [dyn_off_loop]; try (eexists; reflexivity).
+  cbn [mul_m add_m bind]. apply IH.
+Qed.
+
+Theorem index_checked m k shape strides n idx :
+  Inv shape strides n -> n <= two64 -> (length shape <= length strides)%nat ->
+  (Forall2 N.lt idx shape ->
+     offset_k m k shape strides idx = Val (Some (dot idx strides)) /\ dot idx strides < n) /\
+  (~ Forall2 N.lt idx shape ->
+     offset_k m k shape strides idx = Val None \/
+     (m = Debug /\ k = KDyn /\ offset_k m k shape strides idx = Ovf)).
+Proof.
+  intros HI Hn Hl. split.
+  - intros Hv. pose proof (HI _ Hv) as Hlt. split; [|exact Hlt].
+    destruct k; cbn [offset_k].
+    + unfold offset_nd. apply nd_valid_iff in Hv. rewrite Hv.
+      rewrite offset_acc_m_exact by lia. cbn [bind]. rewrite N.add_0_l. reflexivity.
+    + unfold offset_dyn. rewrite (Forall2_len _ _ _ Hv), Nat.eqb_refl.
+      rewrite dyn_off_loop_exact by (try assumption; lia). cbn [bind fst snd].
+      rewrite N.add_0_l. reflexivity.
+  - intros Hnv. destruct k; cbn [offset_k].
+    + left. unfold offset_nd. destruct (nd_valid idx shape) eqn:E; [|reflexivity].
+      apply nd_valid_iff in E. contradiction.
+    + unfold offset_dyn.
+      destruct (dyn_off_loop m idx shape strides (Nat.eqb (length idx) (length shape)) 0) as [r|] eqn:E.
+      * left. cbn [bind]. replace (fst r) with false; [reflexivity|]. symmetry.
+        destruct (Nat.eqb (length idx) (length shape)) eqn:El.
+        -- apply Nat.eqb_eq in El. rewrite (dyn_off_loop_flag _ _ _ _ _ _ _ El Hl E). cbn [andb].
+           destruct (nd_valid idx shape) eqn:Ev; [|reflexivity]. apply nd_valid_iff in Ev. contradiction.
+        -- exact (dyn_off_loop_false _ _ _ _ _ _ E).
+      * right. destruct m.
+        -- destruct (dyn_off_loop_release idx shape strides (Nat.eqb (length idx) (length shape)) 0) as [r Hr].
+           congruence.
+        -- repeat split; reflexivity.
+Qed.
+
+(* get / get_mut / Index / IndexMut: an offset is only ever produced for a valid index and is
+   then the true offset, below the storage length *)
+Corollary index_some_in_bounds m k shape strides n idx o :
+  Inv shape strides n -> n <= two64 -> (length shape <= length strides)%nat ->
+  offset_k m k shape strides idx = Val (Some o) ->
+  Forall2 N.lt idx shape /\ o = dot idx strides /\ o < n.
+Proof.
+  intros HI Hn Hl H.
+  destruct (index_checked m k shape strides n idx HI Hn Hl) as [Hv Hnv].
+  destruct (nd_valid idx shape) eqn:E.
+  - apply nd_valid_iff in E. destruct (Hv E) as [E1 E2]. rewrite E1 in H. inversion H; subst. auto.
+  - assert (Hn' : ~ Forall2 N.lt idx shape) by (intros C; apply nd_valid_iff in C; congruence).
+    destruct (Hnv Hn') as [E1|(_ & _ & E1)]; rewrite E1 in H; discriminate.
+Qed.
+
+Theorem weak_index_in_bounds m strides idx n o : weak_index m strides idx n = OffSome o -> o < n.
+Proof.
+  unfold weak_index. destruct (offset_acc_m m idx strides 0) as [x|]; [|discriminate].
+  destruct (x <? n) eqn:E; [|discriminate]. intros H. inversion H; subst. apply N.ltb_lt. exact E.
+Qed.
+
+(* ------------------------------------------------------------ Inv under simple layout changes *)
+Lemma inv_b_dims sh st n : (length sh <= length st)%nat ->
+  inv_b sh st n = existsb (fun d => d_size d =? 0) (combine st sh) || (max_off (combine st sh) + 1 <=? n).
+Proof.
+  intros Hl. unfold inv_b. f_equal. revert st Hl.
+  induction sh as [|s r IH]; intros [|t tr] Hl; cbn in Hl; try lia; try reflexivity.
+  cbn [has_zero_dim existsb combine]. unfold is_zero, d_size; cbn [snd]. f_equal.
+  apply IH. lia.
+Qed.
+
+Theorem inv_permute sh st sh' st' n :
+  length sh = length st -> length sh' = length st' ->
+  Permutation (combine st sh) (combine st' sh') -> Inv sh st n -> Inv sh' st' n.
+Proof.
+  intros L1 L2 P H. apply inv_b_iff. apply inv_b_iff in H.
+  rewrite inv_b_dims in * by lia.
+  pose proof (has_zero_perm _ _ P) as Hz. unfold has_zero in Hz.
+  rewrite <- Hz. rewrite <- (max_off_perm _ _ P). exact H.
+Qed.
+
+(* shrinking dimensions (slice from the start, clip_dim, the left half of split) *)
+Theorem inv_shrink sh sh' st n : Forall2 N.le sh' sh -> Inv sh st n -> Inv sh' st n.
+Proof.
+  intros Hle H idx Hv. apply H. clear H.
+  revert sh Hle. induction Hv as [|i s' ir sr' Hi Hr IH]; intros sh Hle; inversion Hle; subst; constructor.
+  - lia.
+  - apply IH. assumption.
+Qed.
+
+(* a larger storage keeps the promise (views of a prefix, Vec capacity growth) *)
+Theorem inv_mono sh st n n' : n <= n' -> Inv sh st n -> Inv sh st n'.
+Proof. intros Hn H idx Hv. specialize (H idx Hv). lia. Qed.
+
+(* ------------------------------------------------------------ oracle reflection (injectivity) *)
+Lemma valid_combine_inv : forall shape strides idx, (length shape <= length strides)%nat ->
+  valid (combine strides shape) idx -> Forall2 N.lt idx shape.
+Proof.
+  induction shape as [|s sr IH]; intros strides idx Hl H.
+  - destruct strides; cbn [combine] in H; apply valid_nil_inv in H; subst; constructor.
+  - destruct strides as [|t tr]; [cbn in Hl; lia|]. cbn [combine] in H.
+    apply valid_cons_inv in H as (i0 & ir & -> & Hi & Hr). unfold d_size in Hi; cbn [snd] in Hi.
+    constructor; [exact Hi|]. apply (IH tr); [cbn in Hl; lia|exact Hr].
+Qed.
+
+Lemma Injective_injective shape strides : (length shape <= length strides)%nat ->
+  Injective shape strides -> injective (combine strides shape).
+Proof.
+  intros Hl H i j Hi Hj He.
+  apply valid_combine_inv in Hi; [|exact Hl]. apply valid_combine_inv in Hj; [|exact Hl].
+  pose proof (Forall2_len _ _ _ Hi) as Li. pose proof (Forall2_len _ _ _ Hj) as Lj.
+  rewrite !offset_combine_le in He by assumption. apply H; assumption.
+Qed.
+
+Lemma oracle_injective shape strides : (length shape <= length strides)%nat ->
+  Injective shape strides -> injective_b (combine strides shape) = true.
+Proof. intros Hl H. apply injective_b_complete, Injective_injective; assumption. Qed.
+
+Lemma not_inv_witness sh st n idx : Forall2 N.lt idx sh -> n <= dot idx st -> ~ Inv sh st n.
+Proof. intros Hv Hle H. specialize (H idx Hv). lia. Qed.
